@@ -324,6 +324,10 @@ class AppendSampler(PointSampler):
     def sample_points(self, params=Points.empty(), device="cpu"):
         samples_a = self.sampler_a.sample_points(params, device=device)
         samples_b = self.sampler_b.sample_points(params, device=device)
+        if not params.isempty:
+            # both samples carry the parameter columns, keep them only once
+            own_variables = [v for v in samples_b.space if v not in params.space]
+            samples_b = samples_b[:, own_variables]
         self.set_length(len(samples_a))
         return samples_a.join(samples_b)
 
